@@ -6,6 +6,7 @@ import Emu.Driver.Bt
 import Emu.Driver.Gcs
 import Emu.Driver.Lock
 import Emu.Driver.Conc
+import Emu.Driver.Scan
 
 open Emu Emu.Driver
 
@@ -31,6 +32,9 @@ def handle (st : St) (line : String) : St × String :=
       let (s', r) := Emu.Gcs.step st.gcs op
       ({ st with gcs := s' }, showGcsResp r)
     | none => (st, "bad-op")
+  | "scanw" :: rest =>
+    let (bt', r) := handleScanW st.bt rest
+    ({ st with bt := bt' }, r)
   | "conc" :: rest =>
     let (c', bt', gcs', r) := handleConc st.conc st.bt st.gcs rest
     ({ st with conc := c', bt := bt', gcs := gcs' }, r)
